@@ -12,7 +12,7 @@ import numpy as np
 from vlib.deductive import run_contracts
 
 LEVEL = "other"
-REPO = "/repo"
+REPO = os.environ.get("VERIF_REPO", "/repo")
 
 
 def _snap(x):
